@@ -95,6 +95,10 @@ func init() {
 				Edits: []Edit{{File: "driver/options/channel.go", Old: "\t\tc, ok := o.(*channel.Channel)\n\n\t\tif !ok {\n\t\t\treturn util.ErrIgnoredOption\n\t\t}\n\n\t\tc.ReturnChar = []byte(s)\n", New: "\t\tif _, isDriver := o.(*channel.Channel); !isDriver && o == nil {\n\t\t\treturn util.ErrIgnoredOption\n\t\t}\n\n\t\tc := o.(*channel.Channel)\n\n\t\tc.ReturnChar = []byte(s)\n"}}},
 			{ID: "C19-resolve-before-assertion", Desc: "WithSSHConfigFile resolves the path before looking at the object", Rule: "C19/ignored-first",
 				Edits: []Edit{{File: "driver/options/transportssh.go", Old: "func WithSSHConfigFile(s string) util.Option {\n\treturn func(o interface{}) error {\n\t\ta, ok := o.(*transport.SSHArgs)\n\n\t\tif !ok {\n\t\t\treturn util.ErrIgnoredOption\n\t\t}\n\n\t\tsshF, err := util.ResolveFilePath(s)\n\t\tif err != nil {\n\t\t\treturn util.ErrFileNotFoundError\n\t\t}\n", New: "func WithSSHConfigFile(s string) util.Option {\n\treturn func(o interface{}) error {\n\t\tsshF, err := util.ResolveFilePath(s)\n\t\tif err != nil {\n\t\t\treturn util.ErrFileNotFoundError\n\t\t}\n\n\t\ta, ok := o.(*transport.SSHArgs)\n\n\t\tif !ok {\n\t\t\treturn util.ErrIgnoredOption\n\t\t}\n"}}},
+			{ID: "C19-stale-verdict", Desc: "generic NewDriver checks err behind the default-logger block, where it can still hold the last option's ErrIgnoredOption", Rule: "C19/verdict-in-loop-only",
+				Edits: []Edit{{File: "driver/generic/driver.go", Old: "\t\tvar l *logging.Instance\n\n\t\tl, err = logging.NewInstance()\n\t\tif err != nil {\n\t\t\treturn nil, err\n\t\t}\n\n\t\td.Logger = l\n\t}\n", New: "\t\td.Logger, err = logging.NewInstance()\n\t}\n\n\tif err != nil {\n\t\treturn nil, err\n\t}\n"}}},
+			{ID: "C19-tilde-cutset", Desc: "ResolveFilePath strips the home prefix with TrimLeft (a character set) instead of TrimPrefix", Rule: "C19/no-cutset-for-prefix",
+				Edits: []Edit{{File: "util/file.go", Old: "strings.TrimPrefix(f, \"~/\")", New: "strings.TrimLeft(f, \"~/\")"}}},
 			{ID: "C19-factory-forgets-args-error", Desc: "NewTransport goes on to build the transport without looking at the error of NewSSHArgs", Rule: "C19/error-before-use",
 				Edits: []Edit{{File: "transport/factory.go", Old: "\t\t\tsshArgs, err = NewSSHArgs(options...)\n\t\t\tif err != nil {\n\t\t\t\treturn nil, err\n\t\t\t}\n", New: "\t\t\tsshArgs, err = NewSSHArgs(options...)\n"}}},
 			{ID: "C19-platform-rewraps-option-error", Desc: "the platform constructor prints the driver constructor's error instead of wrapping it", Rule: "C19/constructors-relay",
@@ -142,6 +146,12 @@ func runC19(c *Ctx, r *Report) {
 	checkOptionIgnoredFirst(c, r, "C19/ignored-first")
 	r.Rule("C19/constructors-relay", "constructors hand on the errors of options and nested constructors unwrapped or wrapped with %w", 1)
 	checkConstructorsRelayErrors(c, r, "C19/constructors-relay")
+	r.Rule("C19/no-cutset-for-prefix", "no strings/bytes Trim, TrimLeft or TrimRight is handed a constant set of two or more distinct non-blank characters (a prefix or suffix was meant: the value an option stores is the value the caller named)", 1)
+	checkNoCutsetForPrefix(c, r, "C19/no-cutset-for-prefix")
+	r.Rule("C19/float-scaled-first", "wherever the library converts a float to an integer type (a Duration) the scaling to the unit comes before the conversion, in whatever helper the conversion sits", 1)
+	checkFloatScaledBeforeConversion(c, r, "C19/float-scaled-first")
+	r.Rule("C19/verdict-in-loop-only", "the error an option returned is examined inside the constructor's apply loop and never again behind it (a tolerated ErrIgnoredOption of the last option cannot fail the constructor)", 4)
+	checkOptionVerdictNotReexamined(c, r, "C19/verdict-in-loop-only")
 	r.Rule("C19/error-before-use", "in the constructors (and the helpers they reach) no product of a call is used before the error that came with it has been tested: an option that one constructor rejected is not forgotten by the next", 1)
 	checkValueBeforeErrorCheck(c, r, "C19/error-before-use", constructorScope(c), "constructors")
 	importFoundation(c, r, "C19", "platform-fresh")
